@@ -283,14 +283,14 @@ theorem foldTfc_congr {f g : Key → List Key} {ks : List Key} (h : ∀ d, d ∈
     exact ih (fun d hd => h d (List.mem_cons_of_mem _ hd)) _
 
 /-- the static facts of a projection survive a state change that keeps the frontier contribution of
-    every firewall / projection node -/
-theorem Inv.pjStat_transfer {p : Program} {s s' : St} (inv : Inv p s) (sp : StaticProj p)
-    (hfront : ∀ d nd, s.nodes d = some nd → nd.kind = .firewall ∨ nd.kind = .projection →
-      front s' d = front s d)
+    every firewall / static projection node -/
+theorem Inv.pjStat_transfer {p : Program} {s s' : St} (inv : Inv p s)
+    (hfront : ∀ d nd, s.nodes d = some nd →
+      nd.kind = .firewall ∨ (nd.kind = .projection ∧ IsStaticKey p d) → front s' d = front s d)
     {x : Key} {nx : Node} {dx : NodeDef} {ks : List Key} (hx : s.nodes x = some nx)
     (hpx : p[x]? = some dx) (hkx : nx.kind = .projection) (hst : ProgStatic dx.prog ks) :
     nx.deps.map (·.1) = recordKeys ks [] ∧ nx.tfc = foldTfc (front s') ks [] := by
-  obtain ⟨h1, h2⟩ := inv.pjStat sp x nx dx ks hx hpx hkx hst
+  obtain ⟨h1, h2⟩ := inv.pjStat x nx dx ks hx hpx hkx hst
   refine ⟨h1, ?_⟩
   rw [h2]
   apply foldTfc_congr
